@@ -6,7 +6,7 @@
                     get_population 347 / interactive.py 165   -> [pop_index]     (the `untracked` default differs by class)
      interactive.py InteractiveContext.step 46-69             -> [interactive_step] (override / restore of the global step)
                     take_steps 136-163                        -> [steps]
-                    run_until 105-134, run_for 86, run 71     -> [run_until]     (iteration count from the CURRENT step)
+                    run_until 104-143, run_for 85, run 70     -> [run_until]     (while clock < end: step(); since 98b7435f)
      time.py        step_forward 164-183, get_active_simulants 185-190, move_simulants_to_end 192-194,
                     on_initialize_simulants 132-142           -> [step_forward], [active], [snooze_op], [create]
      event.py       EventChannel.emit 96-123                  -> event = (index, clock + step, step)
@@ -222,19 +222,42 @@ Section WithComponents.
       end
     else Ok (s, []).
 
-  (* InteractiveContext.run_until(end): iterations = int(ceil((end - time) / step_size)) computed ONCE from the
-     current global step; then `assert time - step_size < end <= time`.  (Timedelta / Timedelta is a float division;
-     exact for the magnitudes used - assumption recorded in the harness.) *)
+  (* InteractiveContext.run_until(end) since commit 98b7435f [F-AB]:  while self._clock.time < end_time: self.step()
+     (a generator feeds the loop so that the IPython progress bar still works; the loop test is re-evaluated before every
+     step).  run_for(d) = run_until(clock + d); run() = run_until(clock.stop_time). *)
+  Fixpoint loop_until (f : sim_state -> result (sim_state * list event)) (e : Z) (fuel : nat) (s : sim_state)
+    : result (sim_state * list event) :=
+    if T s <? e then
+      match fuel with
+      | O => OutOfFuel
+      | Datatypes.S k =>
+        match f s with
+        | Ok (s1, e1) =>
+          match loop_until f e k s1 with
+          | Ok (s2, e2) => Ok (s2, e1 ++ e2)
+          | Rejected er => Rejected er
+          | OutOfFuel => OutOfFuel
+          end
+        | Rejected er => Rejected er
+        | OutOfFuel => OutOfFuel
+        end
+      end
+    else Ok (s, []).
+  Definition run_until (v : variant) (e : Z) (fuel : nat) (s : sim_state) := loop_until (step_interactive v) e fuel s.
+  Definition run_for (v : variant) (d : Z) (fuel : nat) (s : sim_state) := run_until v (T s + d) fuel s.
+  Definition run_interactive (v : variant) (fuel : nat) (s : sim_state) := run_until v (E s) fuel s.
+
+  (* the code BEFORE 98b7435f: iterations = int(ceil((end - time) / step_size)) computed ONCE from the current global
+     step, then `assert time - step_size < end <= time` (kept only for the historical refutation, finding F-AB) *)
   Definition cdiv (a b : Z) : Z := (a + b - 1) / b.
-  Definition run_until (v : variant) (e : Z) (s : sim_state) : result (sim_state * list event) :=
+  Definition run_until_old (v : variant) (e : Z) (s : sim_state) : result (sim_state * list event) :=
     if S s =? 0 then Rejected EOther
     else
       match steps (step_interactive v) (Z.to_nat (cdiv (e - T s) (S s))) s with
       | Ok (s', evs) => if (T s' - S s' <? e) && (e <=? T s') then Ok (s', evs) else Rejected EOther
       | r => r
       end.
-  Definition run_for (v : variant) (d : Z) (s : sim_state) := run_until v (T s + d) s.
-  Definition run_interactive (v : variant) (s : sim_state) := run_until v (E s) s.
+  Definition run_interactive_old (v : variant) (s : sim_state) := run_until_old v (E s) s.
 End WithComponents.
 
 (* engine.py 55-99: the process-global set _created_simulation_contexts only yields the context NAME
